@@ -298,6 +298,32 @@ func (m *lexModel) indexOfStore(st *ssa.Store) bool {
 	return okGuard
 }
 
+// advancedSince: every path from the load `from` to instruction `to` executes at least one store to pos
+// (each store is pos+1 or more, checked separately), so the content at `to` is >= the loaded one + 1.
+func (m *lexModel) advancedSince(from, to ssa.Instruction) bool {
+	fb, tb := from.Block(), to.Block()
+	if !fb.Dominates(tb) {
+		return false
+	}
+	if fb == tb {
+		lo, hi := ir.IndexIn(from), ir.IndexIn(to)
+		return lo < hi && m.storeIn(fb, lo, hi) >= 0
+	}
+	if m.storeIn(fb, ir.IndexIn(from), len(fb.Instrs)) >= 0 {
+		return true
+	}
+	if m.storeIn(tb, 0, ir.IndexIn(to)) >= 0 {
+		return true
+	}
+	blocked := map[*ssa.BasicBlock]bool{fb: true}
+	for _, b := range m.fn.Blocks {
+		if b != tb && m.kill(b) {
+			blocked[b] = true
+		}
+	}
+	return !m.g.reach(m.g.succ[fb], blocked, nil)[tb]
+}
+
 // noStoreBetween: a dominates b and no store to pos can execute between them.
 func (m *lexModel) noStoreBetween(a, b ssa.Instruction) bool {
 	if a.Block() == b.Block() {
@@ -712,6 +738,12 @@ func lex1(c *Ctx) {
 			}
 			okHi := sl.High != nil && m.isPosLoad(sl.High)
 			okLo := sl.Low != nil && m.isPosLoad(sl.Low) && sl.Low.(ssa.Instruction).Block().Dominates(sl.Block())
+			// usage[a+1:b]: a an earlier content, and the position was advanced at least once in between
+			if bo, isBo := sl.Low.(*ssa.BinOp); isBo && !okLo && bo.Op == token.ADD && m.isPosLoad(bo.X) {
+				if one, isC := ir.ConstInt(bo.Y); isC && one == 1 && m.advancedSince(bo.X.(ssa.Instruction), sl) {
+					okLo = true
+				}
+			}
 			c.Check(okHi && okLo, key, sl.Pos(), "usage[a:b] with a an earlier and b a later content of pos (0 <= a <= b <= len)", "slice bounds are not two contents of the position cell in order")
 			return
 		}
@@ -1049,6 +1081,12 @@ func lex4(c *Ctx) {
 					if m.isUsage(x.X) {
 						if start != nil && x.Low == start && x.High != nil && m.isPosLoad(x.High) {
 							return true
+						}
+						// a suffix taken directly: usage[start+k:pos]
+						if bo, isBo := x.Low.(*ssa.BinOp); isBo && bo.Op == token.ADD && start != nil && bo.X == start && x.High != nil && m.isPosLoad(x.High) {
+							if k, isK := ir.ConstInt(bo.Y); isK && k >= 0 {
+								return true
+							}
 						}
 						// the single byte at the token's own position
 						if bo, isBo := x.High.(*ssa.BinOp); isBo && bo.Op == token.ADD && x.Low != nil && m.isPosLoad(x.Low) && m.isPosLoad(bo.X) {
